@@ -2,6 +2,7 @@ CONSTANTS
   Logs = FALSE
   RecordHist = FALSE
   MaxInt = 0
+  Grow = FALSE
   AllowDie = TRUE
 SPECIFICATION FairSpec
 PROPERTY C11_Termination
